@@ -1,6 +1,7 @@
 import Cx.Driver
 import Cx.DriverCompile
 import Cx.DriverLit
+import Cx.DriverPike
 /-! cxdrv — reads requests from stdin (one per line), writes one answer per line. -/
 
 def tokens (line : String) : List String := (line.trimAscii.toString.splitOn " ").filter (· ≠ "")
@@ -13,7 +14,10 @@ def answer (line : String) : String :=
   | none =>
     match Cx.DriverLit.handle? toks with
     | some r => r
-    | none => Cx.Driver.handle line
+    | none =>
+      match Cx.DriverPike.handle? toks with
+      | some r => r
+      | none => Cx.Driver.handle line
 
 partial def loop (h : IO.FS.Stream) (out : IO.FS.Stream) : IO Unit := do
   let line ← h.getLine
